@@ -166,7 +166,8 @@ def run_shard(sh, ctx):
 			top = M.maxval(rdt)
 			refs = [sorted(set(rng.sample(range(0, 60), rng.randint(0, 12))) | ({top} if rng.random() < 0.3 else set())) for _ in range(rng.randint(1, 6))]
 			shift = top + 1
-			q = sorted(set(rng.sample(range(0, 60), rng.randint(1, 12))) | {x + shift for x in rng.sample(range(0, 60), 4)} | ({top} if rng.random() < 0.5 else set()))
+			q = sorted(set(rng.sample(range(0, 60), rng.randint(1, 12))) | {x + shift for x in rng.sample(range(0, 60), 4)} | ({top} if rng.random() < 0.5 else set())) if t % 5 else []
+			refs = refs + [[]]   # always one empty reference: (empty, empty) must be 0, (non-empty, empty) must be 1
 			qa = np.array(q, dtype=qdt)
 			rarrs = [np.array(r, dtype=rdt) for r in refs]
 			for cname, cont in (('SignatureArray', SignatureArray(rarrs, None, dtype=np.dtype(rdt))), ('SignatureList', SignatureList(list(rarrs), None, dtype=np.dtype(rdt))), ('list', list(rarrs))):
